@@ -3,6 +3,7 @@ package streamfilter
 import (
 	internaltypes "lunar/engine/streams/internal-types"
 	publictypes "lunar/engine/streams/public-types"
+	"lunar/engine/utils"
 
 	"github.com/rs/zerolog/log"
 )
@@ -59,8 +60,17 @@ func (node *FilterNode) isStatusCodeQualified(
 		return true
 	}
 
+	// On the response path that follows an early response there is no provider
+	// response to look at (the stream only switched its type): the status
+	// constraint cannot exclude the flow there, and must not be dereferenced.
+	response := APIStream.GetResponse()
+	if utils.IsInterfaceNil(response) {
+		log.Trace().Msgf("No response to check the status code of for Flow: %s", flow.GetName())
+		return true
+	}
+
 	for _, statusCode := range allowedStatusCodes {
-		if statusCode == APIStream.GetResponse().GetStatus() {
+		if statusCode == response.GetStatus() {
 			log.Trace().Msgf("Status code is qualified for Flow: %s", flow.GetName())
 			return true
 		}
